@@ -16,22 +16,23 @@ open Haiway.Retry
 
 def clsId : String → Option Nat
   | "Ex" => some 0 | "Cn" => some 1 | "Bx" => some 2 | "E1" => some 3 | "E1s" => some 4
-  | "E2" => some 5 | "BE" => some 6 | "Cs" => some 7 | "CE" => some 8 | _ => none
+  | "E2" => some 5 | "BE" => some 6 | "Cs" => some 7 | "CE" => some 8 | "SI" => some 9 | _ => none
 
 def clsName : Nat → String
-  | 0 => "Ex" | 1 => "Cn" | 2 => "Bx" | 3 => "E1" | 4 => "E1s" | 5 => "E2" | 6 => "BE" | 7 => "Cs" | 8 => "CE"
+  | 0 => "Ex" | 1 => "Cn" | 2 => "Bx" | 3 => "E1" | 4 => "E1s" | 5 => "E2" | 6 => "BE" | 7 => "Cs" | 8 => "CE" | 9 => "SI"
   | _ => "?"
 
 /-- the harness's class hierarchy: Ex = Exception, Cn = CancelledError, Bx = BaseException,
-E1, E1s < E1, E2 (all < Exception), BE < BaseException, Cs < CancelledError, CE < CancelledError *and* E1 (multiple inheritance) -/
+E1, E1s < E1, E2, SI = StopIteration (all < Exception), BE < BaseException, Cs < CancelledError, CE < CancelledError *and* E1 (multiple inheritance) -/
 def isSub (c d : Nat) : Bool :=
   c == d || d == 2 || (d == 0 && (c == 3 || c == 4 || c == 5 || c == 8)) || (c == 4 && d == 3) || (c == 7 && d == 1)
-    || (c == 8 && (d == 1 || d == 3))
+    || (c == 8 && (d == 1 || d == 3)) || (c == 9 && d == 0)
 
 def kindCls : String → Option (Option Nat)
   | "ok" => some none | "e1" => some (some 3) | "e1s" => some (some 4) | "e2" => some (some 5)
   | "cn" => some (some 1) | "xc" => some (some 1) | "cs" => some (some 7) | "be" => some (some 6)
   | "ce" => some (some 8)
+  | "si" => some (some 9)       -- StopIteration (an Exception like any other for the wrapper)
   | _ => none
 
 def parseList (s : String) : Option (List Nat) := (s.splitOn ",").mapM clsId
